@@ -1,7 +1,7 @@
 (* Properties_C12.v — C12: OCP cost, adjoint gradient and masked Riccati (Gauss-Newton) step are exact.
    Only theorem statements closed by `exact`, each followed by Print Assumptions, plus non-vacuity examples. *)
 From Coq Require Import Reals List ZArith Lra Arith Lia Sorting.Sorted Sorting.Permutation.
-From Alpaqa Require Import Num NumR Vec Ocp OcpProofs.
+From Alpaqa Require Import Num NumR Vec Ocp OcpProofs OcpMinProofs.
 Import ListNotations.
 
 (* ---- (1) index sets: for EVERY mask, horizon, width and stage: J ascending, K ascending, J = the free components,
@@ -100,6 +100,35 @@ Theorem C12_riccati_step_is_stationary_partial : forall lsolve nx nu sts QN qN,
 Proof. exact riccati_step_is_stationary. Qed.
 Print Assumptions C12_riccati_step_is_stationary_partial.
 
+(* Full statement: with R̄_k positive definite for every stage (posdef_all), symmetric Q_k, R_k, Q_N and a factorisation routine that
+   solves the reduced systems, the step Δu returned by factor_masked + solve_masked is the UNIQUE MINIMISER of the equality-constrained
+   quadratic subproblem over the free components with the fixed ones at their prescribed values: every feasible point is Δu + δ with
+   δ[K_k] = 0 (dir_ok), and   obj(Δu + δ) − obj(Δu) = Σ_k ½ w_kᵀ R̄_k w_k >= 0  (w_k = δu_k[J] − K_k δx_k), with equality only for δ = 0.
+   For every horizon and every free/fixed split per stage. *)
+Theorem C12_riccati_step_is_minimiser : forall lsolve nx nu sts QN qN,
+  Forall (wf2 nx nu) sts -> wfm nx nx QN -> selfadj nx QN -> length qN = nx ->
+  solves_all lsolve nx sts QN qN -> posdef_all lsolve nx sts QN qN ->
+  let Δus := riccati_step lsolve nx sts QN qN in
+  forall δus, dir_ok nu sts δus ->
+    obj sts QN qN (vconst nx 0) (map2 vadd Δus δus) - obj sts QN qN (vconst nx 0) Δus = quadR lsolve nx sts QN qN (vconst nx 0) δus /\
+    obj sts QN qN (vconst nx 0) Δus <= obj sts QN qN (vconst nx 0) (map2 vadd Δus δus) /\
+    (obj sts QN qN (vconst nx 0) (map2 vadd Δus δus) <= obj sts QN qN (vconst nx 0) Δus -> Forall (fun δu => δu = vconst nu 0) δus).
+Proof. exact riccati_step_is_minimiser. Qed.
+Print Assumptions C12_riccati_step_is_minimiser.
+
+(* ... and in the usual form: the returned step is feasible, no feasible input sequence (free components arbitrary, fixed ones at
+   their prescribed values) has a smaller objective, and any feasible sequence that is at least as good IS the returned step. *)
+Theorem C12_riccati_step_is_unique_minimiser : forall lsolve nx nu sts QN qN,
+  Forall (wf2 nx nu) sts -> wfm nx nx QN -> selfadj nx QN -> length qN = nx ->
+  solves_all lsolve nx sts QN qN -> posdef_all lsolve nx sts QN qN ->
+  let Δus := riccati_step lsolve nx sts QN qN in
+  feasible nu sts Δus /\
+  forall Δus', feasible nu sts Δus' ->
+    obj sts QN qN (vconst nx 0) Δus <= obj sts QN qN (vconst nx 0) Δus' /\
+    (obj sts QN qN (vconst nx 0) Δus' <= obj sts QN qN (vconst nx 0) Δus -> Δus' = Δus).
+Proof. exact riccati_step_unique_minimiser. Qed.
+Print Assumptions C12_riccati_step_is_unique_minimiser.
+
 (* ---- non-vacuity *)
 Example C12_nonvacuous_index :
   index_update (fun t i => nth i (nth t [[true; false; true]; [false; false; false]] []) false) 2 3
@@ -140,4 +169,19 @@ Proof.
   - intros [|x [|? ?]] [|y [|? ?]] Hx Hy; simpl in *; try discriminate; numR; ring.
   - simpl. split; auto. intros b Hb. cbn in Hb. destruct b as [|b [|]]; simpl in Hb; try discriminate.
     cbn. numR. split; auto. f_equal. field; lra.
+Qed.
+
+(* the same stage also satisfies the hypotheses of the minimiser theorem: R symmetric, R̄ = [[2]] positive definite *)
+Example C12_nonvacuous_minimiser :
+  Forall (wf2 1 2) [st1] /\ posdef_all lsolve1 1 [st1] [[1]] [0] /\ dir_ok 2 [st1] [[0; 1]].
+Proof.
+  destruct C12_nonvacuous_riccati as (Hw & _).
+  split; [|split].
+  - constructor; [|constructor]. split; [exact (Forall_inv Hw)|].
+    intros [|x0 [|x1 [|? ?]]] [|y0 [|y1 [|? ?]]] Hx Hy; simpl in *; try discriminate; numR; ring.
+  - simpl. split; auto. intros v Lv Hv. cbn in Lv. destruct v as [|v0 [|? ?]]; simpl in Lv; try discriminate.
+    cbn. cbn in Hv. numR.
+    assert (v0 <> 0) by (intro; subst; apply Hv; reflexivity).
+    assert (0 < v0 * v0) by nra. nra.
+  - constructor; [|constructor]. split; reflexivity.
 Qed.
